@@ -377,21 +377,25 @@ func (r *InhibitRule) updateIndex(alert *types.Alert) {
 	// If the existing alert resolves after the new alert, do nothing.
 }
 
-// findEqualSourceAlert returns the source alert that matches the equal labels of the given label set.
-func (r *InhibitRule) findEqualSourceAlert(lset model.LabelSet, now time.Time) (*types.Alert, bool) {
+// findEqualSourceAlert returns a source alert that has the equal labels of the
+// given label set and satisfies inhibits. The index remembers a single source
+// alert per set of equal labels; only if that one cannot inhibit (it is gone,
+// resolved or excluded) the cache is scanned for another one sharing them.
+func (r *InhibitRule) findEqualSourceAlert(lset model.LabelSet, inhibits func(*types.Alert) bool) (*types.Alert, bool) {
 	equalsFP := r.fingerprintEquals(lset)
 	sourceFP, ok := r.sindex.Get(equalsFP)
-	if ok {
-		alert, err := r.scache.Get(sourceFP)
-		if err != nil {
-			return nil, false
-		}
+	if !ok {
+		return nil, false
+	}
 
-		if alert.ResolvedAt(now) {
-			return nil, false
-		}
-
+	if alert, err := r.scache.Get(sourceFP); err == nil && inhibits(alert) {
 		return alert, true
+	}
+
+	for _, alert := range r.scache.List() {
+		if alert.Fingerprint() != sourceFP && inhibits(alert) && r.fingerprintEquals(alert.Labels) == equalsFP {
+			return alert, true
+		}
 	}
 
 	return nil, false
@@ -402,6 +406,11 @@ func (r *InhibitRule) gcCallback(alerts []*types.Alert) {
 		fp := r.fingerprintEquals(a.Labels)
 		r.sindex.Delete(fp)
 	}
+	// A deleted index entry may have belonged to (or hidden) another source
+	// alert with the same equal labels that is still cached.
+	for _, a := range r.scache.List() {
+		r.updateIndex(a)
+	}
 }
 
 // hasEqual checks whether the source cache contains alerts matching the equal
@@ -409,11 +418,10 @@ func (r *InhibitRule) gcCallback(alerts []*types.Alert) {
 // is returned. If excludeTwoSidedMatch is true, alerts that match both the
 // source and the target side of the rule are disregarded.
 func (r *InhibitRule) hasEqual(lset model.LabelSet, excludeTwoSidedMatch bool, now time.Time) (model.Fingerprint, bool) {
-	equal, found := r.findEqualSourceAlert(lset, now)
+	equal, found := r.findEqualSourceAlert(lset, func(a *types.Alert) bool {
+		return !a.ResolvedAt(now) && !(excludeTwoSidedMatch && r.TargetMatchers.Matches(a.Labels))
+	})
 	if found {
-		if excludeTwoSidedMatch && r.TargetMatchers.Matches(equal.Labels) {
-			return model.Fingerprint(0), false
-		}
 		return equal.Fingerprint(), found
 	}
 
